@@ -112,6 +112,150 @@ def transform(src):
     return scfg, out
 
 
+# ------------------------------------------------------------------ inside the region of finding R8
+class ConstOracle(progs.Oracle):
+    """every access returns a value that depends on its tag only: runs of the original and of the translation see the
+    same values whatever the order of evaluation, so finding R8 (and/or operands evaluated early, possibly without need)
+    cannot change the result - only the number of evaluations of the hoisted operands"""
+
+    def __init__(self, seed):
+        super().__init__(())
+        self.seed = seed
+
+    def _v(self, key):
+        import zlib
+        return zlib.crc32(repr((self.seed, key)).encode()) % 3
+
+    def __call__(self, tag):
+        self.log.append(('call', tag))
+        return self._v(('call', tag))
+
+    @property
+    def p(self):
+        self.log.append(('attr',))
+        return self._v(('attr',))
+
+    def __getitem__(self, k):
+        self.log.append(('item', k))
+        return self._v(('item', k))
+
+    def it(self, tag):
+        self.log.append(('iter', tag))
+        return list(range(self._v(('iter', tag))))
+
+    def pairs(self, tag):
+        self.log.append(('pairs', tag))
+        return [(j, j + 10) for j in range(self._v(('pairs', tag)))]
+
+    def boom(self, tag):
+        self.log.append(('boom', tag))
+        return 1
+
+
+def hoisted_keys(src):
+    """log keys of the oracle accesses that lie inside an and/or in R8 position (operand of arithmetic, comparison, call
+    argument, or later operand of another and/or)"""
+    t = ast.parse(src)
+    par = {}
+    for n in ast.walk(t):
+        for c in ast.iter_child_nodes(n):
+            par[c] = n
+    keys, any_attr = set(), False
+    for n in ast.walk(t):
+        if not isinstance(n, ast.BoolOp):
+            continue
+        p = par.get(n)
+        while isinstance(p, ast.BoolOp):
+            p = par.get(p)
+        q = par.get(n)
+        r8 = isinstance(p, (ast.BinOp, ast.Compare, ast.UnaryOp, ast.IfExp, ast.Subscript, ast.List, ast.Tuple, ast.keyword)) \
+            or isinstance(p, ast.Call) or (isinstance(q, ast.BoolOp) and q.values[0] is not n)
+        if not r8:
+            continue
+        for x in ast.walk(n):
+            if isinstance(x, ast.Call) and isinstance(x.func, ast.Name) and x.func.id == 'o' and x.args and isinstance(x.args[0], ast.Constant):
+                keys.add(('call', x.args[0].value))
+            if isinstance(x, ast.Call) and isinstance(x.func, ast.Attribute) and isinstance(x.func.value, ast.Name) and x.func.value.id == 'o' \
+                    and x.args and isinstance(x.args[0], ast.Constant):
+                keys.add(({'it': 'iter', 'boom': 'boom', 'pairs': 'pairs'}.get(x.func.attr, x.func.attr), x.args[0].value))
+            if isinstance(x, ast.Subscript) and isinstance(x.value, ast.Name) and x.value.id == 'o' and isinstance(x.slice, ast.Constant):
+                keys.add(('item', x.slice.value))
+            if isinstance(x, ast.Attribute) and isinstance(x.value, ast.Name) and x.value.id == 'o' and x.attr == 'p':
+                keys.add(('attr',))
+    return keys
+
+
+def run_const(callable_, seed, limit=20000):
+    import sys
+    o = ConstOracle(seed)
+    steps = [0]
+
+    def tracer(frame, event, arg):
+        steps[0] += 1
+        if steps[0] > limit:
+            raise TimeoutError('step limit')
+        return tracer
+    old = sys.gettrace()
+    sys.settrace(tracer)
+    try:
+        try:
+            r = ('ok', repr(callable_(o)))
+        except TimeoutError:
+            r = ('timeout', None)
+        except Exception as e:
+            r = ('exc', type(e).__name__)
+    finally:
+        sys.settrace(old)
+    return r, Counter(k for k in o.log if k[0] != 'c'), [k for k in o.log if k[0] != 'c']
+
+
+def check_inside_r8(src, seeds=(1, 2, 3, 4, 5, 6)):
+    """programs in the region of finding R8 are still compared, under the tag-constant oracle: same result, the accesses
+    outside the hoisted and/or operands happen equally often and in the same order, the hoisted ones at least as often.
+    Returns {'C07': verdict, 'C08': verdict}"""
+    from numba_scfg.core.datastructures.ast_transforms import AST2SCFGTransformer
+    out = {'C07': ('ok', None), 'C08': ('ok', None)}
+    hk = hoisted_keys(src)
+    fn = progs.compile_fn(src)
+    try:
+        scfg, tree = transform(src)
+        tf = progs.compile_fn(ast.unparse(ast.fix_missing_locations(tree)), 'transformed_f')
+    except BaseException:
+        tf = None
+
+    def differs(ref, got):
+        (r0, c0, l0), (r1, c1, l1) = ref, got
+        if r0 != r1:
+            return {'kind': 'r8-region:result', 'want': str(r0)[:100], 'got': str(r1)[:100]}
+        if [k for k in l0 if k not in hk] != [k for k in l1 if k not in hk]:
+            return {'kind': 'r8-region:accesses-outside-hoisted-operands', 'want': str([k for k in l0 if k not in hk])[:200],
+                    'got': str([k for k in l1 if k not in hk])[:200]}
+        for k in hk:
+            if c1.get(k, 0) < c0.get(k, 0):
+                return {'kind': 'r8-region:hoisted-operand-skipped', 'key': str(k)}
+        return None
+    for sd in seeds:
+        ref = run_const(fn, sd)
+        if ref[0][0] == 'timeout':
+            continue
+        if tf is not None and out['C07'][0] == 'ok':
+            d = differs(ref, run_const(tf, sd))
+            if d:
+                out['C07'] = ('fail', dict(d, seed=sd))
+        if out['C08'][0] == 'ok':
+            try:
+                g = AST2SCFGTransformer(src).transform_to_SCFG()
+                d = differs(ref, run_const(lambda o: interp_cfg(g, o), sd))
+                if d:
+                    out['C08'] = ('fail', dict(d, seed=sd))
+            except NotImplementedError:
+                pass
+            except BaseException as e:
+                if isinstance(e, (KeyboardInterrupt, SystemExit)):
+                    raise
+    return out
+
+
 def rekeyed(scfg):
     """replace, in place, every branching block whose value table is not in ascending key order by the equal block
     with the table in that order; returns the names of the blocks touched"""
@@ -281,8 +425,9 @@ def known_region(src):
                 out.add('R9a')     # for-loop target that is not a plain name
             else:
                 inside = {id(x) for b in n.body for x in ast.walk(b)}
+                aug = {id(a.target) for a in ast.walk(t) if isinstance(a, ast.AugAssign)}     # `x += e` reads x
                 for x in ast.walk(t):
-                    if isinstance(x, ast.Name) and x.id == n.target.id and isinstance(x.ctx, ast.Load) and id(x) not in inside:
+                    if isinstance(x, ast.Name) and x.id == n.target.id and (isinstance(x.ctx, ast.Load) or id(x) in aug) and id(x) not in inside:
                         out.add('R9b')   # loop variable observed outside the loop body
     try:
         g = AST2SCFGTransformer(src).transform_to_SCFG().graph
@@ -342,10 +487,24 @@ def work(args):
             out['counts']['checker-exception:' + type(e).__name__] += 1
             out.setdefault('checker_exceptions', []).append({'source': src, 'error': repr(e)[:200]})
             continue
+        inside = None
         for prop, r in (('C08', r8), ('C07', rr['C07']), ('C10', rr['C10'])):
             relevant = [k for k in kr if k in REGION_PROPS.get(prop, ())]
             if r[0] == 'fail' and relevant:
                 out['counts'][prop + ':known-region-fail'] += 1
+                if relevant == ['R8'] and prop in ('C07', 'C08'):
+                    # the program lies in the region of R8 only: it is still compared, under an oracle R8 cannot disturb
+                    if inside is None:
+                        try:
+                            inside = check_inside_r8(src)
+                        except BaseException as e:
+                            if isinstance(e, (KeyboardInterrupt, SystemExit)):
+                                raise
+                            inside = {}
+                    w = inside.get(prop)
+                    out['counts'][prop + ':r8-region-compared'] += 1
+                    if w and w[0] == 'fail':
+                        out['fails'].append({'prop': prop, 'source': src, 'kind': w[1]['kind'], 'detail': w[1], 'classes': classify(src)})
                 continue
             if relevant:
                 out['counts'][prop + ':known-region-pass'] += 1
